@@ -145,6 +145,11 @@ def run(tier, v):
     vlib.run_hv("ana", areq, aout, timeout=3000, env={"HV_PCAP_DIR": os.path.join(wd, "pcap")})
     res = {}
     for o in vlib.read_ndjson(aout):
+        if o.get("skipped"):
+            continue
+        if o.get("hung"):
+            v.violation({"run": str(o["id"]), "observed": "the parallel front end does not finish: 10 s after analyze_pcap returned and the last result arrived, the result channel is still open (a worker has not left)"})
+            continue
         kind, si, crate, key, ci = o["id"].split("|")
         k = (int(si), crate, key, int(ci))
         if "panic" in o:
@@ -161,8 +166,13 @@ def run(tier, v):
         if "panic" in o:
             v.violation(dict(meta[k], observed="panic: " + o["panic"], run="pool"))
             continue
+        if o.get("skipped"):
+            continue                  # the harness stops a batch after three runs that lost queued packets (reported below)
         if o["timed_out"]:
-            raise vlib.ToolError("pool run %s did not drain" % o["id"])
+            # packets reported queued were never taken up by a worker within 30 s (3 s with empty queues): a worker has stopped
+            v.violation({"shape": meta[k]["shape"], "analyzer": crate, "path": "worker pool with%s filter" % ("" if kind.startswith("P") else "out"), "filter": meta[k]["filter"] if kind.startswith("P") else None,
+                         "observed": "packets that were reported queued are never analysed: a worker of the pool no longer takes packets", "frames": meta[k]["frames"][:40]})
+            continue
         rs = o["results"]
         if crate == "http":
             rs = [{"req": x["req"], "resp": x["resp"]} for x in rs]
